@@ -1434,4 +1434,101 @@ theorem quiet_when_shutdown (ops : List TOp) : ∀ (tm : TM), Tracked tm → (tm
         simp only at hs
         rw [pass_shutdown_eq, pass_shutdown_eq, pass_shutdown_eq, hs0'] at hs; cases hs
 
+
+/-! ### closing the hypotheses of the registry theorems for the shipped classes -/
+
+theorem step_flags (w : World) (op : ROp) : (w.step op).fwdRemove = w.fwdRemove ∧ (w.step op).fwdAdd = w.fwdAdd := by
+  cases op with
+  | add v l =>
+    cases v
+    · exact ⟨rfl, rfl⟩
+    · simp only [World.step]; split <;> exact ⟨rfl, rfl⟩
+  | addPrefix v l p =>
+    cases v
+    · exact ⟨rfl, rfl⟩
+    · simp only [World.step]; split <;> exact ⟨rfl, rfl⟩
+  | remove v l =>
+    cases v
+    · exact ⟨rfl, rfl⟩
+    · simp only [World.step]; split <;> exact ⟨rfl, rfl⟩
+  | _ => exact ⟨rfl, rfl⟩
+
+theorem run_flags (ops : List ROp) : ∀ (w : World), (w.run ops).fwdRemove = w.fwdRemove := by
+  induction ops with
+  | nil => intro w; rfl
+  | cons op rest ih => intro w; simp only [World.run, List.foldl_cons]; exact (ih _).trans (step_flags w op).1
+
+/-- registry operations that do not touch the proxy relation / the endpoint's back reference -/
+theorem step_keeps_fwd_ref (w : World) (op : ROp)
+    (h : match op with | .setFwd _ _ => False | .clearFwd _ => False | .setRef _ => False | _ => True) :
+    (w.step op).fwd = w.fwd ∧ (w.step op).tunnelRef = w.tunnelRef := by
+  cases op with
+  | add v l =>
+    cases v
+    · exact ⟨rfl, rfl⟩
+    · simp only [World.step]; split <;> exact ⟨rfl, rfl⟩
+  | addPrefix v l p =>
+    cases v
+    · exact ⟨rfl, rfl⟩
+    · simp only [World.step]; split <;> exact ⟨rfl, rfl⟩
+  | remove v l =>
+    cases v
+    · exact ⟨rfl, rfl⟩
+    · simp only [World.step]; split <;> exact ⟨rfl, rfl⟩
+  | setOpen b => exact ⟨rfl, rfl⟩
+  | setAnon l b => exact ⟨rfl, rfl⟩
+  | setFwd a b => exact absurd h id
+  | clearFwd a => exact absurd h id
+  | setRef r => exact absurd h id
+
+/-- what the constructor chain of a class leaves in the proxy relation and the back reference, on a world in which nothing
+    referred to the new overlay before -/
+theorem loadOps_fwd_ref (c : ClassInfo) (viaOuter : Bool) (self proxy : Lid) (pfx : Pfx) (w : World)
+    (h1 : NoFwdTo self w) (h2 : w.tunnelRef ≠ some self) :
+    (∀ e ∈ (w.run (loadOps c viaOuter self proxy pfx)).fwd, e.2 = self → (c.installsProxy = true ∧ e.1 = proxy)) ∧
+    ((w.run (loadOps c viaOuter self proxy pfx)).tunnelRef = some self → c.installsProxy = true) := by
+  have k := fun (w : World) (op : ROp) h => step_keeps_fwd_ref w op h
+  cases hp : c.installsProxy
+  · -- three registry operations only
+    simp only [loadOps, hp, World.run, List.foldl_cons, List.foldl_nil, List.append_nil, Bool.false_eq_true, if_false]
+    have a1 := k w (.add viaOuter self) trivial
+    have a2 := k (w.step (.add viaOuter self)) (.remove viaOuter self) trivial
+    have a3 := k ((w.step (.add viaOuter self)).step (.remove viaOuter self)) (.addPrefix viaOuter self pfx) trivial
+    refine ⟨?_, ?_⟩
+    · intro e he h; rw [a3.1, a2.1, a1.1] at he; exact absurd h (h1 e he)
+    · intro h; rw [a3.2, a2.2, a1.2] at h; exact absurd h h2
+  · refine ⟨?_, fun _ => rfl⟩
+    -- registry operations, then `setFwd proxy self`, then possibly `setRef (some self)`
+    intro e he h
+    refine ⟨rfl, ?_⟩
+    -- split the op list at `setFwd proxy self`
+    let six : List ROp := [.add viaOuter self, .remove viaOuter self, .addPrefix viaOuter self pfx, .remove viaOuter self,
+                           .remove viaOuter proxy, .addPrefix viaOuter proxy pfx]
+    have hsplit : loadOps c viaOuter self proxy pfx =
+        six ++ (ROp.setFwd proxy self :: (if viaOuter then [ROp.setRef (some self)] else [])) := by
+      simp [loadOps, hp, six]
+    have hw6 : (w.run six).fwd = w.fwd := by
+      simp only [six, World.run, List.foldl_cons, List.foldl_nil]
+      rw [(k _ (.addPrefix viaOuter proxy pfx) trivial).1, (k _ (.remove viaOuter proxy) trivial).1,
+          (k _ (.remove viaOuter self) trivial).1, (k _ (.addPrefix viaOuter self pfx) trivial).1,
+          (k _ (.remove viaOuter self) trivial).1, (k _ (.add viaOuter self) trivial).1]
+    have happ : w.run (six ++ (ROp.setFwd proxy self :: (if viaOuter then [ROp.setRef (some self)] else []))) =
+        (w.run six).run (ROp.setFwd proxy self :: (if viaOuter then [ROp.setRef (some self)] else [])) := by
+      simp [World.run, List.foldl_append]
+    rw [hsplit, happ] at he
+    generalize w.run six = w0 at he hw6
+    have hbase : ∀ e ∈ (w0.step (.setFwd proxy self)).fwd, e.2 = self → e.1 = proxy := by
+      intro e he h
+      simp only [World.step] at he
+      rcases List.mem_cons.mp he with rfl | he
+      · rfl
+      · have hm := List.mem_filter.mp he
+        rw [hw6] at hm
+        exact absurd h (h1 e hm.1)
+    cases viaOuter
+    · simp only [Bool.false_eq_true, if_false, World.run, List.foldl_cons, List.foldl_nil] at he
+      exact hbase e he h
+    · simp only [if_true, World.run, List.foldl_cons, List.foldl_nil] at he
+      exact hbase e he h
+
 end Ipv8.C11
